@@ -107,10 +107,15 @@ G("from_fp", impl=r"impl FastPathUpdate", props=["C06", "C10"], keys=True, attrs
 # ---- client
 G("new", impl=r"impl Client", props=["C12"],
   ensures=[("C12", "initial-state", "r.st() is DemandActivePDU && r.uid() == user_id && r.chan() == channel_id && r.share() is None")])
-G("read_demand_active_pdu", impl=r"impl Client", props=["C06", "C12"], keys=True,
+G("read_demand_active_pdu", impl=r"impl Client", props=["C06", "C12", "C03"], keys=True,
   ensures=STATE_FRAME + [("C12", "share-id-recorded", "r is Ok && r->Ok_0 ==> final(self).share() is Some"), ("C12", "share-id-kept", "r is Ok && !r->Ok_0 ==> final(self).share() == old(self).share()")],
   hints=[(r"cast!\(DataType::Trame, pdu\.message\[\"capabilitySets\"\]\)", 1, "it:", "at"),
          (r"for capability_set in", 1, "let ghost caps = pdu.message.fields()[6].1->Arr_0;", "before")],
+  # C03 "carries the identifiers the server assigned": the share id kept for the confirm-active / finalization PDUs is the shareId field of
+  # THIS demand-active (every activation, not only the first one), relative to the parsed structure
+  claims=[(r"return Ok\(true\)", 1, """proof {
+            assert(pdu.message.fields()[0].0 == "shareId"@ && pdu.message.fields()[0].1 is U32);
+            assert(self.share() == Some(pdu.message.fields()[0].1->U32_0)); }""", "before", "C03,C12", "share-id-is-this-demand-actives")],
   loops={1: """invariant
             it.seq().len() == caps.len(), forall|k: int| 0 <= k < it.seq().len() ==> (#[trigger] it.seq()[k]).fview() == caps[k], cap_sets_ok(caps),
             self.st() == old(self).st() && self.same_config(old(self)) && self.share() == old(self).share(),"""})
@@ -332,9 +337,8 @@ C("write", props=["C11", "C12"],
            ("C12", "gate-error-kind", "!old(self).active() && !(event is Bitmap) ==> " + KIND("r", "InvalidAutomata")),
            ("C11", "refusal-error-kind", "event is Bitmap ==> " + KIND("r", "UnexpectedType")),
            ("C11,C12", "no-gate-error-when-active", "old(self).active() ==> !automata_err(r)")],
-  pre="proof { lemma_client_specs(&self.global); }",
-  hints=[(r"match pointer\.button \{", 1, BITS, "before"),
-         (r"if !key\.down \{", 1, BITS, "before")])
+  # constant bit facts: stated at function entry (no anchor needed)
+  pre="proof { lemma_client_specs(&self.global); } " + BITS)
 C("try_write", props=["C11", "C12"],
   requires=["old(self).ready()"],
   ensures=[("C11,C12", "frame", "final(self).incoming() == old(self).incoming() && final(self).same_session(old(self)) && final(self).state() == old(self).state() && is_prefix(old(self).wire(), final(self).wire())"),
